@@ -1,0 +1,28 @@
+//go:build verif && !test
+
+package os
+
+import "github.com/glebziz/fs_db/internal/verifhook"
+
+// Write is the verification build's observation / fault-injection point for content writes.
+func (f File) Write(p []byte) (n int, err error) {
+	if k, fErr, handled := verifhook.FaultWrite(f.Name(), p); handled {
+		if k > 0 {
+			verifhook.Mut("write", f.Name(), k)
+			_, _ = f.File.Write(p[:k])
+		}
+
+		return k, fErr
+	}
+
+	verifhook.Mut("write", f.Name(), len(p))
+
+	return f.File.Write(p)
+}
+
+// Close is the verification build's observation point for closing a content file.
+func (f File) Close() error {
+	verifhook.Mut("close", f.Name(), 0)
+
+	return f.File.Close()
+}
